@@ -44,10 +44,12 @@ def analyse(prop, root):
                 g = Finding(prop, f.rule, f.file, f.func, f.construct, f.msg, f.witness); mine.append(g)
         recorded = [o for o in util.STATS.obligations[n_ob0:] if o["prop"] == prop or (o["prop"] in also and o["rule"] in also[o["prop"]])]
         served = {p for p, lst in registry.RULES.items() if any(n == fn.__name__ for _, n in lst)}
-        if not recorded and inst:
-            # rule function that does not record individual instances yet: count, attributed to this property
-            # only if the function serves it alone; shared functions are counted once per serving property
-            recorded = [{"prop": prop, "rule": fn.__name__, "file": "", "func": "", "construct": "instance %d of %s" % (i + 1, fn.__name__), "ok": True, "note": "counted"} for i in range(inst if len(served) == 1 else max(1, inst // len(served)))]
+        rest = inst - len(util.STATS.obligations[n_ob0:])
+        if rest > 0:
+            # instances the rule function counted without recording them one by one: attributed to this property
+            # in full if the function serves it alone, else an equal share (at least one)
+            share = rest if len(served) == 1 else max(1, rest // len(served))
+            recorded = recorded + [{"prop": prop, "rule": fn.__name__, "file": "", "func": "", "construct": "instance %d of %s" % (i + 1, fn.__name__), "ok": True, "note": "counted"} for i in range(share)]
         res.obligations += recorded
         res.findings += mine
         res.rule_runs.append({"rule_function": fn.__name__, "instances": inst, "findings": len(mine)})
@@ -83,7 +85,10 @@ def run_property(prop, root="/repo", tier="quick", replay=None, out=sys.stdout, 
     if tier == "thorough" and not res.errors and replay is None:
         from sa.selftest import runner
         thorough = runner.run_for_property(prop, root)
-        for e in thorough.get("errors", []): res.errors.append(("selftest", e))
+        ts = thorough["summary"]
+        print("SELFTEST %s: %d/%d must-kill mutants reported, %d/%d benign variants silent, %d skipped (anchor text absent)" % (prop, ts.get("mutants_killed", 0), ts.get("mutants_total", 0), ts.get("benign_silent", 0), ts.get("benign_total", 0), ts.get("mutants_skipped", 0) + ts.get("benign_skipped", 0)), file=out)
+        for w in thorough["weak"]: print("   selftest: must-kill mutant not reported on this tree: " + w, file=out)
+        for w in thorough["noisy"]: print("   selftest: benign variant reported on this tree: " + w, file=out)
     # ---- output
     p = props.P[prop]
     for f in listed:
@@ -141,7 +146,9 @@ def run_property(prop, root="/repo", tier="quick", replay=None, out=sys.stdout, 
                         "rule instances are those the anchors' current shape exposes; a construct outside a rule's supported subset is an analysis error (exit 2), never a pass"],
         "wall_s": 0.0, "violations": len(new),
     }
-    if thorough is not None: ev["coverage"]["selftest"] = thorough.get("summary", {})
+    if thorough is not None:
+        ev["coverage"]["selftest"] = dict(thorough.get("summary", {}), weak=thorough["weak"], noisy=thorough["noisy"])
+        ev["coverage"]["evaluations"] += ts.get("mutants_total", 0) + ts.get("benign_total", 0) + ts.get("info_total", 0)
     ev["wall_s"] = round(time.time() - t0, 3)
     if write:
         os.makedirs(EVID, exist_ok=True)
